@@ -13,11 +13,9 @@ THEOREMS = [
     "C15_pushdown_exact_for_conjunctions",
     "C15_pushdown_refuted",
     "C15_matched_iff_exists_followed_by",
-    "C15_preceded_by_refuted",
-    "C15_preceded_blocked_group_empty",
-    "C15_matched_iff_exists_preceded_by_outside_known",
+    "C15_matched_iff_exists_preceded_by",
+    "C15_preceded_by_matched_iff",
     "C15_limit_bounds",
-    "C15_preceded_by_fix_correct",
 ]
 RULE = ("function level: columnar zones laid out like SequenceStreamMerger::batches_to_zones (1-3 zones per type incl. empty zones and "
         "zones without link / time column, link texts shared by many rows, by one side only, aliasing integers ('5','05','+5'), empty and "
@@ -31,13 +29,13 @@ ASSUMPTIONS = [
     "only integer comparisons in WHERE are modelled (Expr::Compare with an integer literal); IN, string and float literals are outside the model",
     "the two event types of a sequence are different (a FOLLOWED BY a pairs every event with itself; not part of the model)",
     "sequences with more than one link return nothing (SequenceMatcher::match_in_group) and are not part of the property",
-    "engine level: each per-type sub-query is an exact row filter for the generated WHERE clauses (C02); generated comparisons avoid the operators C02 lists as defective after FLUSH",
+    "engine level: each per-type sub-query is an exact row filter for the generated WHERE clauses (C02); this is observed per history (the rows each sub-query delivers are given to the model, which flags a difference) and holds on the repaired tree for every generated placement, memory / flushed / mixed, and operator incl. != and NOT",
     "rows with equal time keep an unspecified relative order (arrival order of batches); comparisons at engine level are modulo the choice among equal-time partners",
     "engine level: a read anomaly of the plain per-type QUERY (row without payload, unstable sub-query result; seen about once in 25 000 histories under heavy load, C03's domain) makes the history be repeated on a fresh engine (at most twice, logged to work/c15_anomalies.log)",
 ]
 TRUSTED = [
     "Coq 8.16.1 kernel + coqc; vm_compute for closed witnesses; no native_compute",
-    "translator tools/params/p60_sequence.py (which pointer the final else branch of match_preceded_by advances is read from the Rust text; the comparisons, pointer moves, u64 cast, group order and WHERE collapse rules the model hard-codes are checked to be still present)",
+    "translator tools/params/p60_sequence.py (which pointer the final else branch of match_preceded_by advances is read from the Rust text - the a pointer since fix 49473e7; the comparisons, pointer moves, u64 cast, group order and WHERE collapse rules the model hard-codes are checked to be still present)",
     "extraction: ExtrOcamlBasic only; ocaml/driver.ml, conv.ml, p_seq.ml (parsing/printing)",
     "correspondence harness /verif/harness (vharn fn seq_match; vharn life for the engine-level cases through tools/engine.py) built against /repo with --cfg sneldb_verif",
     "python oracle: brute-force enumeration of all (a, b) pairs per the property text, independent of model and implementation",
@@ -45,7 +43,7 @@ TRUSTED = [
 
 CLAIMED = True
 MANIFEST = {
- "level_text": "Theorems over the model of grouping, the two sweeps, group order, LIMIT and the per-type WHERE push-down (all event sets, link values, times, WHERE trees): every returned pair is linked, correctly ordered and both sides satisfy their WHERE; for FOLLOWED BY on the composed pipeline an a-event is matched iff a qualifying b-event exists whenever the WHERE is a conjunction of one-sided conditions and times are non-negative; the matcher alone, PRECEDED BY and cross-type OR/NOT are refuted with witnesses and the exact failing classes; LIMIT bounds the result. The model is run against the real ColumnarGrouper/SequenceMatcher on generated zones and against the real engine on generated histories, with a brute-force pair enumeration as oracle.",
+ "level_text": "Theorems over the model of grouping, the two sweeps, group order, LIMIT and the per-type WHERE push-down (all event sets, link values, times, WHERE trees): every returned pair is linked, correctly ordered and both sides satisfy their WHERE; for FOLLOWED BY on the composed pipeline an a-event is matched iff a qualifying b-event exists whenever the WHERE is a conjunction of one-sided conditions and times are non-negative; the same holds for PRECEDED BY since fix 49473e7 (no class of its own left); the matcher alone and cross-type OR/NOT are refuted with witnesses and the exact failing classes; LIMIT bounds the result. The model is run against the real ColumnarGrouper/SequenceMatcher on generated zones and against the real engine on generated histories, with a brute-force pair enumeration as oracle.",
  "design_ref": "DESIGN.md §6 C15",
  "level_note": "Trusted: Coq kernel; ExtrOcamlBasic extraction + OCaml driver; the Rust harness and the engine driver; the Python brute-force oracle. Only integer comparisons are modelled; the per-type sub-query is assumed to be an exact filter (C02)."
 }
@@ -243,14 +241,10 @@ def gen_eng(rng, idx):
     ev = {}
     for ty, f, n in ((TA, fa, rng.range(0, 6)), (TB, fb, rng.range(0, 6))):
         ev[ty] = [{"k": rng.choice(links), "t": rng.choice(times), "f": {f[0]: str(rng.range(0, 3))}} for _ in range(n)]
-    flushed = rng.choice(["mem", "mem", "flush_all"])
-    # placements with rows both in memory and in segments are left to C03: there the plain QUERY of one type already drops
-    # flushed rows non-deterministically (see notes/C15.md), so a sequence result over them is not reproducible
+    flushed = rng.choice(["mem", "mem", "flush_all", "mixed"])
     wh = None
     if rng.chance(3, 5):
         wh = gen_where(rng, rng.range(0, 2), fa, fb, conj_only=rng.chance(1, 2))
-        if flushed != "mem":
-            wh = strip_c02(wh)
     lk = rng.choice(["FB", "PB"])
     lim = rng.choice(["-", "-", "-", "1", "2", "3"])
     order = [(0, i) for i in range(len(ev[TA]))] + [(1, i) for i in range(len(ev[TB]))]
@@ -260,6 +254,8 @@ def gen_eng(rng, idx):
     ops = [f"S{t}{i}" for t, i in order]
     if flushed == "flush_all":
         ops.append("F")
+    elif flushed == "mixed" and ops:
+        ops.insert(rng.range(1, len(ops)), "F")
     shards = rng.choice([1, 1, 3])
     line = (f"seq_eng {lk} {lim} {rpn(wh)} {hx(TA)} {hx(TB)} {hx('x')} {hx('y')} "
             f"{zones_tok([('LT', ev[TA])], fa)} {zones_tok([('LT', ev[TB])], fb)} {shards}{lkind}:{','.join(ops) if ops else '-'}")
@@ -268,15 +264,6 @@ def gen_eng(rng, idx):
             + " | " + TA + ": " + " ".join(f"(k={r['k']},t={r['t']},x={r['f']['x']})" for r in ev[TA])
             + " | " + TB + ": " + " ".join(f"(k={r['k']},t={r['t']},y={r['f']['y']})" for r in ev[TB]))
     return {"kind": "eng_" + flushed, "line": line, "show": show}
-
-
-def strip_c02(e):
-    """avoid the operators C02 lists as defective on flushed data (!=, NOT): replace by = / drop NOT"""
-    if e[0] == "c":
-        return leaf(e[1], e[2], "eq" if e[3] == "ne" else e[3], e[4])
-    if e[0] == "!":
-        return strip_c02(e[1])
-    return (e[0], strip_c02(e[1]), strip_c02(e[2]))
 
 
 def cases(rng, tier):
@@ -612,7 +599,7 @@ def oracle(c, impl):
 
 CLASS_OF = {
     # failure kind -> candidate classes in order; a class applies only if the model raised its flag for the case
-    "missing": ["PrecededByBlockedByEarlyA", "UnprefixedFieldAppliedToBothTypes", "CrossTypeOrNot", "TimeNotU64Ordered", "SubQueryInexact"],
+    "missing": ["UnprefixedFieldAppliedToBothTypes", "CrossTypeOrNot", "TimeNotU64Ordered"],
     "pair_time": ["TimeNotU64Ordered"],
     "pair_link": ["AbsentLinkGroupedAsNull", "LinkTextAliasesInteger"],
     "pair_where": ["UnprefixedFieldAppliedToBothTypes", "CrossTypeOrNot"],
